@@ -50,6 +50,7 @@ type Shape struct {
 	ElemAt   []ElemSeg `json:"elem"`  // active element segments in order
 	Start    string    `json:"start"` // "" | "ok" | "trap" | "gset" (start sets g := 9)
 	ID       int       `json:"id"`
+	Priv     bool      `json:"priv"`     // a private (not exported) funcref table with pset(s, funcref), pcall(s); getref() returns ref.func f1
 	FG       bool      `json:"fg"`       // funcref global fg = ref.func f1 and tsetfg(s): table.set s (global.get fg)
 	TailCall bool      `json:"tailcall"` // export trcall (return_call_indirect); needs the tail-call feature    // identity baked into the module: f1 returns ID*10+1, f2 ID*10+2
 	Passive  bool      `json:"passive"`
@@ -210,6 +211,15 @@ func Build(s Shape) []byte {
 		add("tgrow", i32, i32, wb.Cat(wasm.OpcodeRefNull, wasm.RefTypeFuncref, wb.LocalGet(0), wasm.OpcodeMiscPrefix, wasm.OpcodeMiscTableGrow, wb.U32(0)))
 		// declarative element segment so that ref.func f1/f2 is allowed
 		m.Elem(wasm.ElementSegment{Mode: wasm.ElementModeDeclarative, Type: wasm.RefTypeFuncref, Init: []wasm.Index{f1, f2}})
+	}
+	if s.Priv {
+		pt := m.Table(wasm.RefTypeFuncref, 4, nil, "")
+		add("pset", []wasm.ValueType{wb.I32, wasm.ValueTypeFuncref}, nil, wb.Cat(wb.LocalGet(0), wb.LocalGet(1), wasm.OpcodeTableSet, wb.U32(pt)))
+		add("pcall", i32, i32, wb.Cat(wb.LocalGet(0), wb.CallIndirect(tRet, pt)))
+	}
+	add("getref", nil, []wasm.ValueType{wasm.ValueTypeFuncref}, wb.Cat(wasm.OpcodeRefFunc, wb.U32(f1)))
+	if !hasTab {
+		m.Elem(wasm.ElementSegment{Mode: wasm.ElementModeDeclarative, Type: wasm.RefTypeFuncref, Init: []wasm.Index{f1}})
 	}
 	if s.Host {
 		// callhost(k,a,b) -> h_k(a,b)
